@@ -132,33 +132,35 @@ static int ns_xform_name(unsigned char *m, int len, int p, int cmode, int m8, in
 	return -1;
 }
 
-/* transform all names / TXT strings of an answer in place; returns 0 ok */
-static void ns_xform_answer(unsigned char *m, int len, const ns_relay *r)
+/* transform all names / TXT strings of an answer in place; returns 1 if they contain bytes >= 0x80 */
+static int ns_xform_answer(unsigned char *m, int len, const ns_relay *r)
 {
-	if (len < 12) return;
+	int has8 = 0;
+	if (len < 12) return 0;
 	int qd = (m[4] << 8) | m[5], an = (m[6] << 8) | m[7];
 	int p = 12;
-	for (int i = 0; i < qd; i++) { p = ns_xform_name(m, len, p, RC_KEEP, R8_CLEAN, RP_KEEP, NULL); if (p < 0) return; p += 4; }
+	for (int i = 0; i < qd; i++) { p = ns_xform_name(m, len, p, RC_KEEP, R8_CLEAN, RP_KEEP, NULL); if (p < 0) return has8; p += 4; }
 	for (int i = 0; i < an; i++) {
 		p = ns_xform_name(m, len, p, RC_KEEP, R8_CLEAN, RP_KEEP, NULL);
-		if (p < 0 || p + 10 > len) return;
+		if (p < 0 || p + 10 > len) return has8;
 		int type = (m[p] << 8) | m[p + 1], rdlen = (m[p + 8] << 8) | m[p + 9];
 		p += 10;
-		if (p + rdlen > len) return;
-		if (type == 5) ns_xform_name(m, p + rdlen, p, r->acase, r->a8, r->apunct, NULL);
-		else if (type == 15) ns_xform_name(m, p + rdlen, p + 2, r->acase, r->a8, r->apunct, NULL);
-		else if (type == 33) ns_xform_name(m, p + rdlen, p + 6, r->acase, r->a8, r->apunct, NULL);
+		if (p + rdlen > len) return has8;
+		if (type == 5) ns_xform_name(m, p + rdlen, p, r->acase, r->a8, r->apunct, &has8);
+		else if (type == 15) ns_xform_name(m, p + rdlen, p + 2, r->acase, r->a8, r->apunct, &has8);
+		else if (type == 33) ns_xform_name(m, p + rdlen, p + 6, r->acase, r->a8, r->apunct, &has8);
 		else if (type == 16) {
 			int q = p;
 			while (q < p + rdlen) {
 				int l = m[q];
 				if (q + 1 + l > p + rdlen) break;
-				for (int k = 1; k <= l; k++) m[q + k] = ns_xform_byte(m[q + k], r->acase, r->a8, r->apunct, q + k);
+				for (int k = 1; k <= l; k++) { if (m[q + k] >= 0x80) has8 = 1; m[q + k] = ns_xform_byte(m[q + k], r->acase, r->a8, r->apunct, q + k); }
 				q += 1 + l;
 			}
 		}
 		p += rdlen;
 	}
+	return has8;
 }
 
 static int ns_type_index(int t) { for (int i = 0; i < 7; i++) if (NS_TYPES[i] == t) return i; return -1; }
@@ -217,7 +219,7 @@ static int ns_relay_handle(int d)
 		int lim = r->limit;
 		if (lim && (!r->edns || !e->edns)) lim = lim < 512 ? lim : 512;
 		if (lim && g->len > lim) { vw_dgram_free(d); return 1; }
-		ns_xform_answer(g->data, g->len, r);
+		if (ns_xform_answer(g->data, g->len, r) && r->a8 == R8_REJECT) { vw_dgram_free(d); return 1; }     /* a relay that refuses 8-bit data in answers */
 		g->data[0] = e->origid >> 8; g->data[1] = e->origid;
 		/* a resolver answers its client with the question the client asked */
 		if (12 + e->qnlen <= g->len) memcpy(g->data + 12, e->qname, e->qnlen);
@@ -430,6 +432,7 @@ static int ns_boot(const ns_cfg *cfg, int64_t hs_deadline)
 {
 	NC = *cfg;
 	vw_init();
+	W.verbose = getenv("VERIF_VERBOSE") != NULL;
 	ns_nrd = ns_nwr = 0; ns_choices_on = 0;
 	memset(ns_rm, 0, sizeof ns_rm); memset(ns_idm, 0, sizeof ns_idm);
 	memset(ns_fatecount, 0, sizeof ns_fatecount);
